@@ -1,22 +1,32 @@
 """Parallel structural comparison of a repository function with a reference implementation at the level of value
-terms (R-SIBLING against a transcribed specification).  Straight-line segments are compared as the terms they assign /
-return; loops are compared by iteration space and by the transfer function of their body (recursively)."""
+terms (R-SIBLING against a transcribed specification).
+
+Both functions are abstractly executed segment by segment with values flowing forward.  A loop whose iteration space
+is a fixed-shape sequence is unrolled by the evaluator and is part of a straight-line segment; any other loop is
+compared by (i) the values its loop-carried variables have on entry, (ii) its iteration space / condition and
+(iii) the transfer function of its body: the loop-carried variables (the variables written in the loop, in order of
+first write - names do not matter) are bound to canonical symbols, the body is executed once and the resulting values
+and exits are compared.  Loop invariants keep the values computed before the loop.  Straight-line segments are compared
+through their exits (returned values, rejecting returns, raises and their conditions); temporaries are never compared by
+name - what they feed is compared."""
 from __future__ import annotations
 
 import ast
 
 from . import terms as T
-from .evalr import Evaluator, Facts, FALL
-from .loader import AnalysisError, FunctionInfo, PKG
-from . import externals as X
+from .evalr import Evaluator, Facts, FALL, Frame, _fixed_items, UNROLL_BOUND
+from .loader import AnalysisError, PKG
+
+MUT = {'append', 'extend', 'insert', 'pop', 'remove', 'clear', 'update', 'add', 'sort', 'reverse'}
 
 
-def _summaries_for(program, module, keep):
-    """Every function of `module` other than `keep` becomes an uninterpreted operator CALL:<name>(args)."""
+def _summaries_for(program, module, keep, shared):
+    """Functions of `module` that both sides define become uninterpreted operators CALL:<name>(args);
+    helpers that exist on one side only are inlined."""
     summ = {}
     mi = program.get_module(module)
     for name, fi in mi.functions.items():
-        if name == keep:
+        if name == keep or name not in shared:
             continue
 
         def f(ev, fi_, env, facts, name=name):
@@ -25,130 +35,233 @@ def _summaries_for(program, module, keep):
     return summ
 
 
-def _segments(stmts):
-    segs, cur = [], []
-    for s in stmts:
-        if isinstance(s, ast.Expr) and isinstance(s.value, ast.Constant) and isinstance(s.value.value, str):
-            continue
-        if isinstance(s, ast.For) and _is_accumulation_loop(s):
-            cur.append(s)          # the evaluator turns it into a comprehension term
-            continue
-        if isinstance(s, (ast.For, ast.While)):
-            if cur:
-                segs.append(('seq', cur))
-                cur = []
-            segs.append(('loop', s))
-        else:
-            cur.append(s)
-    if cur:
-        segs.append(('seq', cur))
-    return segs
+def _written(nodes):
+    """Names written in the statements, in order of first write (assignment targets, augmented assignments, mutating
+    method calls on a local name)."""
+    out = []
 
-
-def _is_accumulation_loop(st):
-    body = st.body
-    if st.orelse or not body:
-        return False
-    last = body[-1]
-    if not (isinstance(last, ast.Expr) and isinstance(last.value, ast.Call) and isinstance(last.value.func, ast.Attribute)
-            and last.value.func.attr == 'append' and isinstance(last.value.func.value, ast.Name) and len(last.value.args) == 1):
-        return False
-    return all(isinstance(x, ast.Assign) and len(x.targets) == 1 and isinstance(x.targets[0], ast.Name) for x in body[:-1])
-
-
-def _names_used(nodes):
-    out = set()
+    def add(n):
+        if n not in out:
+            out.append(n)
     for s in nodes:
         for n in ast.walk(s):
-            if isinstance(n, ast.Name):
-                out.add(n.id)
-    return out
+            if isinstance(n, ast.Name) and isinstance(n.ctx, ast.Store):
+                add(n.id)
+            elif isinstance(n, ast.Call) and isinstance(n.func, ast.Attribute) and n.func.attr in MUT \
+                    and isinstance(n.func.value, ast.Name):
+                add(n.func.value.id)
+    # order by source position of the first write
+    pos = {}
+    for s in nodes:
+        for n in ast.walk(s):
+            nm = None
+            if isinstance(n, ast.Name) and isinstance(n.ctx, ast.Store):
+                nm = n.id
+            elif isinstance(n, ast.Call) and isinstance(n.func, ast.Attribute) and n.func.attr in MUT \
+                    and isinstance(n.func.value, ast.Name):
+                nm = n.func.value.id
+            if nm is not None:
+                p = (n.lineno, n.col_offset)
+                if nm not in pos or p < pos[nm]:
+                    pos[nm] = p
+    return sorted(out, key=lambda k: pos[k])
 
 
-def _local_names(fi):
-    names = set(fi.params)
-    for n in ast.walk(fi.node):
-        if isinstance(n, ast.Name) and isinstance(n.ctx, ast.Store):
-            names.add(n.id)
-        if isinstance(n, ast.comprehension):
-            for x in ast.walk(n.target):
-                if isinstance(x, ast.Name):
-                    names.discard(x.id)
-    return names
+def _reads(node):
+    return {n.id for n in ast.walk(node) if isinstance(n, ast.Name) and isinstance(n.ctx, ast.Load)}
 
 
-def _sym_env(fi, nodes):
-    # every local of the function is part of the symbolic state of a fragment (a variable the reference updates and the
-    # repository leaves alone must show up as a difference)
-    env = {}
-    for nm in sorted(_local_names(fi)):
-        env[nm] = T.sym('$' + nm)
-    return env
+def _reads_outside(fn, loop):
+    inside = {id(n) for n in ast.walk(loop)}
+    return {n.id for n in ast.walk(fn) if isinstance(n, ast.Name) and isinstance(n.ctx, ast.Load) and id(n) not in inside}
 
 
-def describe(program, module, fname, backend='ecdsa'):
-    """Comparable description of module.fname: nested list of segment records."""
-    fi = program.get_function('%s.%s' % (module, fname))
-    summ = _summaries_for(program, module, fname)
-    ev = Evaluator(program, backend, summaries=summ)
+def _stores(node):
+    return {n.id for n in ast.walk(node) if isinstance(n, ast.Name) and isinstance(n.ctx, ast.Store)}
 
-    def seg_records(stmts):
-        recs = []
-        for kind, item in _segments(stmts):
-            if kind == 'seq':
-                env0 = _sym_env(fi, item)
-                res, env1, facts = ev.eval_fragment('%s.%s' % (module, fname), item, env0)
-                assigned = {k: v for k, v in env1.items() if k not in env0 or env0[k] != v}
-                recs.append(('seq', res if res is not FALL else ('fall',), assigned, dict(env1)))
+
+def _exposed(stmts, defd):
+    """Names read while not definitely assigned (definite-assignment analysis over the structured statements);
+    `defd` is updated to the names definitely assigned after the statements."""
+    exp = set()
+    for s in stmts:
+        if isinstance(s, ast.Assign):
+            exp |= _reads(s.value) - defd
+            for t in s.targets:
+                if not isinstance(t, (ast.Name, ast.Tuple, ast.List)):
+                    exp |= _reads(t) - defd
+            for t in s.targets:
+                if isinstance(t, (ast.Name, ast.Tuple, ast.List)):
+                    defd |= _stores(t)
+        elif isinstance(s, ast.AugAssign):
+            exp |= _reads(s.value) - defd
+            if isinstance(s.target, ast.Name):
+                if s.target.id not in defd:
+                    exp.add(s.target.id)
             else:
-                loop = item
-                env0 = _sym_env(fi, [loop])
-                from .evalr import Frame
-                fr = Frame(fi, dict(env0), Facts(), fi.module, fi.cls, 0)
-                if isinstance(loop, ast.For):
-                    head = ('for', ast.unparse(loop.target), ev.expr(loop.iter, fr))
-                else:
-                    head = ('while', T.truth(ev.expr(loop.test, fr)))
-                recs.append(('loop', head, seg_records(loop.body), seg_records(loop.orelse)))
+                exp |= _reads(s.target) - defd
+        elif isinstance(s, ast.If):
+            exp |= _reads(s.test) - defd
+            d1, d2 = set(defd), set(defd)
+            exp |= _exposed(s.body, d1)
+            exp |= _exposed(s.orelse, d2)
+            defd |= (d1 & d2)
+        elif isinstance(s, ast.For):
+            exp |= _reads(s.iter) - defd
+            d = set(defd) | _stores(s.target)
+            exp |= _exposed(s.body + s.orelse, d)
+        elif isinstance(s, ast.While):
+            exp |= _reads(s.test) - defd
+            exp |= _exposed(s.body + s.orelse, set(defd))
+        else:
+            exp |= _reads(s) - defd
+    return exp
+
+
+def _target_names(t):
+    return [n.id for n in ast.walk(t) if isinstance(n, ast.Name)]
+
+
+class _Walker:
+    def __init__(self, program, module, fname, backend, shared):
+        self.fi = program.get_function('%s.%s' % (module, fname))
+        self.ev = Evaluator(program, backend, summaries=_summaries_for(program, module, fname, shared))
+        self.qual = '%s.%s' % (module, fname)
+        self.depth = 0
+
+    def run(self):
+        env = {p: T.sym('$' + p) for p in self.fi.params}
+        recs, env, facts = self.walk(self.fi.node.body, env, Facts())
         return recs
-    return fi, seg_records(fi.node.body), [fi.params, {k: ast.unparse(v) for k, v in fi.defaults.items()}]
+
+    def _trial(self, pending, env, facts):
+        if not pending:
+            return env, facts
+        try:
+            _, env2, facts2 = self.ev.eval_fragment(self.qual, list(pending), env, facts)
+            return env2, facts2
+        except Exception:
+            return env, facts
+
+    def _iter_is_fixed(self, loop, env, facts):
+        if not isinstance(loop, ast.For):
+            return False
+        fr = Frame(self.fi, dict(env), facts, self.fi.module, self.fi.cls, 0)
+        try:
+            it = self.ev.expr(loop.iter, fr)
+            seq = _fixed_items(it)
+            if seq is not None:
+                return len(seq) <= UNROLL_BOUND and not loop.orelse
+            # an accumulation loop the evaluator turns into a comprehension term
+            return bool(self.ev._append_only_loop(loop, it, fr))
+        except Exception:
+            return False
+
+    def walk(self, stmts, env, facts):
+        recs = []
+        pending = []
+
+        def flush():
+            nonlocal env, facts
+            if not pending:
+                return
+            res, env2, facts2 = self.ev.eval_fragment(self.qual, list(pending), env, facts)
+            recs.append(('seq', res if res is not FALL else ('fall',)))
+            env, facts = env2, facts2
+            pending.clear()
+        for s in stmts:
+            if isinstance(s, ast.Expr) and isinstance(s.value, ast.Constant) and isinstance(s.value.value, str):
+                continue
+            if isinstance(s, (ast.For, ast.While)) and not self._iter_is_fixed(s, *self._trial(pending, env, facts)):
+                flush()
+                written = _written(s.body + s.orelse)
+                tnames = _target_names(s.target) if isinstance(s, ast.For) else []
+                # loop-carried: written in the loop and either read in an iteration before being (definitely)
+                # written, or read outside the loop; other written names are per-iteration temporaries
+                exp = _exposed(s.body + s.orelse, set(tnames))
+                if isinstance(s, ast.While):
+                    exp |= _reads(s.test)
+                outside = _reads_outside(self.fi.node, s)
+                carried = [n for n in written if n not in tnames and (n in exp or n in outside)]
+                init = [env.get(n) for n in carried]
+                d = self.depth
+                env_loop = dict(env)
+                for i, n in enumerate(carried):
+                    env_loop[n] = T.sym('$L%d_%d' % (d, i))
+                fr = Frame(self.fi, env_loop, facts, self.fi.module, self.fi.cls, 0)
+                if isinstance(s, ast.For):
+                    it = self.ev.expr(s.iter, Frame(self.fi, dict(env), facts, self.fi.module, self.fi.cls, 0))
+                    self.ev.assign(s.target, T.sym('$E%d' % d), fr)
+                    head = ('for', it)
+                else:
+                    head = ('while', T.truth(self.ev.expr(s.test, fr)))
+                self.depth += 1
+                body_recs, env_b, _ = self.walk(s.body, fr.env, facts)
+                else_recs, _, _ = self.walk(s.orelse, dict(env_loop), facts) if s.orelse else ([], None, None)
+                self.depth -= 1
+                out_state = [env_b.get(n) for n in carried]
+                recs.append(('loop', head, init, body_recs, out_state, else_recs))
+                for i, n in enumerate(carried):
+                    env[n] = T.sym('$OUT%d_%d' % (d, i))
+                for n in tnames:
+                    env[n] = T.sym('$LASTE%d' % d)
+            else:
+                pending.append(s)
+        flush()
+        return recs, env, facts
+
+
+def describe(program, module, fname, backend='ecdsa', shared=()):
+    w = _Walker(program, module, fname, backend, set(shared))
+    fi = w.fi
+    return fi, w.run(), [len(fi.params), sorted(ast.unparse(v) for v in fi.defaults.values())]
 
 
 def compare(ob, repo_prog, ref_prog, module, fname, same_term, backend='ecdsa'):
-    fi, a, sig_a = describe(repo_prog, module, fname, backend)
-    _, b, sig_b = describe(ref_prog, module, fname, backend)
+    shared = set(repo_prog.get_module(module).functions) & set(ref_prog.get_module(module).functions)
+    fi, a, sig_a = describe(repo_prog, module, fname, backend, shared)
+    _, b, sig_b = describe(ref_prog, module, fname, backend, shared)
     where = fi.where
-    ob.require(sig_a == sig_b, '%s: signature (parameters and defaults) equals the reference' % fname, where,
+    ob.require(sig_a == sig_b, '%s: number of parameters and default values equal the reference' % fname, where,
                expected=sig_b, found=sig_a)
     _cmp_recs(ob, a, b, fname, where, same_term)
 
 
+def _tl(t):
+    """constant tuples and lists are interchangeable for what these functions do with them (indexing, iteration)"""
+    if isinstance(t, tuple) and T.tag(t) == 'tuple' and all(T.is_const(x) for x in t[1]):
+        return ('list', t[1])
+    return t
+
+
+def _cmp_values(ob, xs, ys, what, where, same_term):
+    if len(xs) != len(ys):
+        ob.undecided('%s: the repository has %d loop-carried variables, the reference %d; term-level comparison not possible'
+                     % (what, len(xs), len(ys)), where)
+        return
+    for i, (x, y) in enumerate(zip(xs, ys)):
+        if x is None and y is None:
+            continue
+        if x is None or y is None:
+            ob.require(False, '%s: loop-carried variable #%d is initialised on one side only' % (what, i), where)
+            continue
+        same_term(ob, _tl(x), _tl(y), '%s, loop-carried variable #%d' % (what, i), where)
+
+
 def _cmp_recs(ob, a, b, what, where, same_term):
-    if len(a) != len(b) or [r[0] for r in a] != [r[0] for r in b]:
+    if [r[0] for r in a] != [r[0] for r in b]:
         ob.undecided('%s: statement structure differs from the reference (segments %s vs %s); term-level comparison not possible'
                      % (what, [r[0] for r in a], [r[0] for r in b]), where)
         return
     for i, (ra, rb) in enumerate(zip(a, b)):
         if ra[0] == 'seq':
             same_term(ob, ra[1], rb[1], '%s, segment %d: exits (returned value / rejecting returns and their conditions)' % (what, i), where)
-            for k in sorted(set(ra[2]) | set(rb[2])):
-                # a variable changed on one side and left unchanged on the other is a difference
-                if k not in ra[2] and k in ra[3]:
-                    ra[2][k] = ra[3][k]
-                if k not in rb[2] and k in rb[3]:
-                    rb[2][k] = rb[3][k]
-                if k not in ra[2] or k not in rb[2]:
-                    # a temporary that exists on one side only is not a difference by itself: what it feeds is compared
-                    ob.note('%s, segment %d: temporary %s exists only in %s' % (what, i, k, 'the reference' if k in rb[2] else 'the repository'))
-                    continue
-                same_term(ob, ra[2][k], rb[2][k], '%s, segment %d: value of %s' % (what, i, k), where)
         else:
             ha, hb = ra[1], rb[1]
             ob.require(ha[0] == hb[0], '%s, loop %d: loop kind' % (what, i), where, expected=hb[0], found=ha[0])
-            if ha[0] == 'for' and hb[0] == 'for':
-                ob.require(ha[1] == hb[1], '%s, loop %d: loop variable' % (what, i), where, expected=hb[1], found=ha[1])
-                same_term(ob, ha[2], hb[2], '%s, loop %d: iteration space' % (what, i), where)
-            elif ha[0] == 'while' and hb[0] == 'while':
-                same_term(ob, ha[1], hb[1], '%s, loop %d: loop condition' % (what, i), where)
-            _cmp_recs(ob, ra[2], rb[2], '%s, loop %d body' % (what, i), where, same_term)
-            _cmp_recs(ob, ra[3], rb[3], '%s, loop %d else' % (what, i), where, same_term)
+            if ha[0] == hb[0]:
+                same_term(ob, ha[1], hb[1], '%s, loop %d: %s' % (what, i, 'iteration space' if ha[0] == 'for' else 'loop condition'), where)
+            _cmp_values(ob, ra[2], rb[2], '%s, loop %d: value on entry' % (what, i), where, same_term)
+            _cmp_recs(ob, ra[3], rb[3], '%s, loop %d body' % (what, i), where, same_term)
+            _cmp_values(ob, ra[4], rb[4], '%s, loop %d: value after one iteration' % (what, i), where, same_term)
+            _cmp_recs(ob, ra[5], rb[5], '%s, loop %d else' % (what, i), where, same_term)
